@@ -50,17 +50,26 @@ mod imp {
         let mut seen = 0usize;
         let mut rate = 0.0f64;
         let mut ok = true;
-        r.consume(|drain| {
+        let mut rate_stable = true;
+        r.consume(|mut drain| {
             rate = drain.sample_rate();
             let mut i = 0;
-            for x in drain {
+            // the rate describes the whole drain: asking again while or after iterating gives the same answer
+            while let Some(x) = drain.next() {
                 if i < 3 && x.to_bits() != model[i] {
                     ok = false;
                 }
                 i += 1;
+                if drain.sample_rate().to_bits() != rate.to_bits() {
+                    rate_stable = false;
+                }
+            }
+            if drain.sample_rate().to_bits() != rate.to_bits() {
+                rate_stable = false;
             }
             seen = i;
         });
+        assert!(rate_stable, "sample_rate_does_not_change_while_the_drain_is_iterated");
         assert!(seen == expect_len, "yields_min_of_pushed_and_capacity");
         assert!(ok, "yields_exactly_the_retained_values_of_this_cycle");
         if n <= cap {
@@ -68,6 +77,50 @@ mod imp {
         } else {
             assert!(rate == expect_len as f64 / n as f64, "sample_rate_is_yielded_over_pushed");
         }
+    }
+
+    /// a value pushed while a drain is in progress (here: by the closure that holds the drain) belongs to the next drain
+    pub fn push_during_drain(cap: usize) {
+        verif_set_rng(Some(rng));
+        let r = AtomicSamplingReservoir::new(cap);
+        let n1 = nd::below(cap + 1);
+        let mut k = 0;
+        while k < n1 {
+            r.push(f64::from_bits(100 + k as u64));
+            k += 1;
+        }
+        let mut first = 0usize;
+        r.consume(|drain| {
+            r.push(f64::from_bits(777));
+            for _x in drain {
+                first += 1;
+            }
+        });
+        assert!(first == n1, "first_drain_yields_what_was_pushed_before_it");
+        let mut second = 0usize;
+        let mut got = 0u64;
+        let mut rate = 0.0f64;
+        r.consume(|drain| {
+            rate = drain.sample_rate();
+            for x in drain {
+                second += 1;
+                got = x.to_bits();
+            }
+        });
+        if cap >= 1 {
+            assert!(second == 1 && got == 777, "value_pushed_during_a_drain_is_yielded_by_the_next_drain");
+            assert!(rate == 1.0, "sample_rate_one_when_nothing_dropped");
+        }
+        let mut third = 0usize;
+        r.consume(|drain| {
+            for _x in drain {
+                third += 1;
+            }
+        });
+        assert!(third == 0, "next_drain_starts_from_empty");
+        cover!(n1 == 0, "push during an empty drain reachable");
+        verif_set_rng(None);
+        std::mem::forget(r);
     }
 
     pub fn run(cap: usize, maxn: usize) {
@@ -92,6 +145,9 @@ mod imp {
     pub fn run(_c: usize, _n: usize) {
         panic!("built without --cfg metrics_verif");
     }
+    pub fn push_during_drain(_c: usize) {
+        panic!("built without --cfg metrics_verif");
+    }
 }
 
 harnesses! {
@@ -101,4 +157,8 @@ harnesses! {
     fn c16_cap1() { imp::run(1, 3) }
     #[cfg_attr(kani, kani::unwind(7))]
     fn c16_cap2() { imp::run(2, 4) }
+    #[cfg_attr(kani, kani::unwind(5))]
+    fn c16_push_during_drain_cap1() { imp::push_during_drain(1) }
+    #[cfg_attr(kani, kani::unwind(6))]
+    fn c16_push_during_drain_cap2() { imp::push_during_drain(2) }
 }
